@@ -93,6 +93,9 @@ def form_lines(st):
         return _L("class SimDocErr(Exception):", "    pass")
     if f == 'comment':
         return _L("# comment %d" % i)
+    if f == 'blankprompt':
+        # one or two prompt lines with nothing after them
+        return _L(*([''] * st.get('n', 1)))
     if f == 'directive':
         return _L("# xdoctest: %s" % directive_text(st['dirs']))
     if f == 'await':
@@ -150,6 +153,13 @@ def form_lines(st):
     if f == 'usename':
         # reads a name another doctest defines: NameError unless it leaked
         return _L("sim_u%d = sim_v%d" % (i, st['ref']))
+    if f == 'useclass':
+        # reads a class another doctest of the module defines: NameError unless it leaked
+        return _L("sim_uc%d = SimDocErr.__name__" % i)
+    if f == 'trysibling':
+        # a top-level module next to the package: importable only while the directory
+        # xdoctest adds temporarily is (still) on sys.path
+        return _L("try:", "    import simsibling", "    S.emit('%s')" % p[0], "except ImportError:", "    S.emit('%s')" % p[1])
     if f == 'badcompile':
         return _L(st.get('text', 'return 5'))
     if f == 'strdirective':
@@ -178,6 +188,8 @@ def form_out(st):
         return [tok(p[0]) + '\n' + 'tail%dline\n' % st['i']]
     if f == 'asyncwith':
         return [tok(p[1]) + '\n']
+    if f == 'trysibling':
+        return [tok(p[1]) + '\n']
     if f == 'asyncfor':
         return [tok(p[0]) + '\n', tok(p[1]) + '\n']
     return []
@@ -186,7 +198,7 @@ def form_out(st):
 EXPR_FORMS = {'expr', 'print', 'emit', 'emitnoeol', 'say', 'multiline', 'semiemit', 'tqprint', 'callhelper_expr', 'callhelper_emit',
               'callmod_expr', 'awaitexpr', 'awaitprint', 'names', 'emitop'}
 VALUE_FORMS = {'expr': 0, 'multiline': 0, 'callhelper_expr': 0, 'callmod_expr': 0, 'awaitexpr': 0, 'emitop': 0}
-NOCODE_FORMS = {'comment', 'directive'}
+NOCODE_FORMS = {'comment', 'directive', 'blankprompt'}
 ASYNC_FORMS = {'await', 'awaitexpr', 'awaitprint', 'gather', 'asyncwith', 'asyncfor', 'awaitco', 'bgtask'}
 
 
@@ -361,9 +373,9 @@ def render_doctest(dt, indent, out, lineno0, env=None, defaults=None):
             if not prefixed:
                 out.append(pad + '    ' + text)
             elif j == 0 or not st.get('ps2'):
-                out.append(pad + '>>> ' + text)
+                out.append((pad + '>>> ' + text).rstrip(' '))
             else:
-                out.append(pad + '... ' + text)
+                out.append((pad + '... ' + text).rstrip(' '))
         last_line = lineno0 + len(out) - 1
         wl = want_lines_for(st, window)
         want_line = None
